@@ -241,6 +241,7 @@ pub fn replay(case: &serde_json::Value) -> Check {
     check_case(&c, &mut st, 200)
 }
 
+/// (Half of the cases with multipliers up to 10^6 seal blocks that carry tips.)
 /// The step rule at heights sampled anywhere below 2 000 000 on mainnet and testnet (the TIP-906 barrier crossed
 /// honestly where the target lies beyond it), with the multiplier installed by re-basing the state on a header that
 /// carries it: ordinary and extreme multipliers, every delta class.
@@ -299,9 +300,24 @@ pub fn check_at_height(c: &AtHeight, st: &mut Stats, shard: usize) -> Check {
     w.headers.insert(hd.height.0, hd);
     w.cur = r.next_unsealed();
     w.last_sealed = Some(r);
+    // half of the cases with ordinary multipliers put a transaction that pays far more than its minimum fee into every
+    // block before it is sealed, so that the block carries tips when the multiplier is moved
+    let tipped = (c.m_sel >> 4) % 2 == 0 && m <= 1_000_000;
+    let mut coin = (melstructs::CoinID::zero_zero(), 1u128 << 60);
     for d in c.deltas.iter().copied() {
         let h = w.height();
         let t901 = crate::refstf::tips_at(net, h).t901;
+        if tipped && coin.1 > (1 << 41) {
+            let mut tx = melstructs::Transaction::new(melstructs::TxKind::Normal);
+            tx.inputs = vec![coin.0];
+            tx.covenants = vec![CovSpec::True.bytes().into()];
+            tx.fee = CoinValue(1 << 40);
+            tx.outputs = vec![CoinData { covhash: CovSpec::True.hash(), value: CoinValue(coin.1 - (1 << 40)), denom: Denom::Mel, additional_data: Default::default() }];
+            if let crate::world::Outcome::Ok(()) = w.apply_batch(std::slice::from_ref(&tx)) {
+                coin = (tx.output_coinid(0), coin.1 - (1 << 40));
+                st.class("block-with-tips-before-the-step");
+            }
+        }
         match w.seal(Some(ProposerAction { fee_multiplier_delta: d, reward_dest: dest_for(h ^ m as u64) })) {
             crate::world::Outcome::Ok(s) => {
                 let got = s.header().fee_multiplier;
